@@ -967,6 +967,8 @@ def run(res):
             conc_stats["epochs"] += sum(1 for l in info if l.startswith("fev done"))
         if bad and first_bad is None:
             first_bad = (kind, envset, ops, bad)
+        if first_bad is not None and kind != "unit":
+            break          # a failing history is in hand; with a change that makes histories hang every further case costs a timeout
         if impl != model:
             disagreements += 1
             if first_diff is None:
